@@ -110,6 +110,10 @@ static inline void set_mxcsr(uint32_t v) { __asm__ volatile("ldmxcsr %0" ::"m"(v
 // x87 control word: the other half of the x86-64 floating-point environment (fenv covers both)
 static inline uint16_t get_x87cw() { uint16_t v; __asm__ volatile("fnstcw %0" : "=m"(v)); return v; }
 static inline void set_x87cw(uint16_t v) { __asm__ volatile("fldcw %0" ::"m"(v)); }
+// control, status and tag word of the x87 unit (FNSTENV image without the instruction/operand pointers); FNSTENV masks all
+// exceptions as a side effect, so the image is loaded back at once
+struct X87Env { uint16_t cw, sw, tw; };
+static inline X87Env get_x87env() { uint32_t img[7]; __asm__ volatile("fnstenv %0\n\tfldenv %0" : "+m"(img)); X87Env e; e.cw = (uint16_t)img[0]; e.sw = (uint16_t)img[1]; e.tw = (uint16_t)img[2]; return e; }
 
 // crash capture: the executor registers what to print if the process dies inside a run.
 typedef void (*CrashReporter)(const char *cls, const char *sig);
